@@ -31,7 +31,7 @@ Inductive mkind :=
 Record mstep := mkMStep { ms_kind : mkind; ms_n : nat; ms_pairs : list (raw * raw) }.
 
 Record case := mkCase {
-  c_n : nat; c_faithful : bool;
+  c_n : nat;
   c_steps : list (op * exc * snap);
   c_msteps : list mstep;
   c_energy : list (obs * list (label * Qc) * Qc) }.
@@ -59,12 +59,12 @@ Definition snap_matches (n : nat) (q : scqm) (sn : snap) : bool :=
   && expr_matches n (q_obj q) (sn_obj sn) (sn_objvars sn)
   && forall2b (con_matches n (q_vars q)) (q_cons q) (sn_cons sn).
 
-Fixpoint run_check (faithful : bool) (n : nat) (q : scqm) (steps : list (op * exc * snap)) : bool :=
+Fixpoint run_check (n : nat) (q : scqm) (steps : list (op * exc * snap)) : bool :=
   match steps with
   | [] => true
   | (o, x, sn) :: r =>
-      let '(q', e) := step faithful q o in
-      exc_eqb e x && snap_matches n q' sn && run_check faithful n q' r
+      let '(q', e) := step q o in
+      exc_eqb e x && snap_matches n q' sn && run_check n q' r
   end.
 
 (* ---------- M level ---------- *)
@@ -116,18 +116,18 @@ Definition check_energy (t : obs * list (label * Qc) * Qc) : bool :=
   Qc_eqb (energy_on (obs_poly (fst (fst t))) (snd (fst t))) (snd t).
 
 Definition check (c : case) : bool :=
-  run_check (c_faithful c) (c_n c) empty_cqm (c_steps c)
+  run_check (c_n c) empty_cqm (c_steps c)
   && forallb check_mstep (c_msteps c)
   && forallb check_energy (c_energy c).
 
 (* debugging aid: per step (exception agrees, state agrees, model's exception) *)
-Fixpoint trace (faithful : bool) (n : nat) (q : scqm) (steps : list (op * exc * snap)) : list (bool * bool * exc) :=
+Fixpoint trace (n : nat) (q : scqm) (steps : list (op * exc * snap)) : list (bool * bool * exc) :=
   match steps with
   | [] => []
   | (o, x, sn) :: r =>
-      let '(q', e) := step faithful q o in
-      (exc_eqb e x, snap_matches n q' sn, e) :: trace faithful n q' r
+      let '(q', e) := step q o in
+      (exc_eqb e x, snap_matches n q' sn, e) :: trace n q' r
   end.
-Definition trace_case (c : case) := trace (c_faithful c) (c_n c) empty_cqm (c_steps c).
+Definition trace_case (c : case) := trace (c_n c) empty_cqm (c_steps c).
 Definition state_after (c : case) (k : nat) : scqm :=
-  run (c_faithful c) (map (fun s => fst (fst s)) (firstn k (c_steps c))) empty_cqm.
+  run (map (fun s => fst (fst s)) (firstn k (c_steps c))) empty_cqm.
